@@ -32,13 +32,13 @@ def prog():
 
 
 def tasks(tier):
-    n = 2 if tier == 'quick' else 3
+    n = 2          # three-statement programs did not finish within an hour on 16 cores (measured); thorough widens the two-statement families instead
     ts = []
     # two families: scalar signals (targets s0, s1; shapes over s0, s1) and array elements (targets s0, a[0], a[1]; shapes reading a[..])
     for fam, tg, sh in (('scalar', [0, 1], [0, 1, 2, 3, 4]), ('array', [0, 2, 3], [0, 4, 5, 6])):
         for nn in range(1, n + 1):
             for k0 in range(4):
-                if fam == 'array' and nn == n and k0 != 0: continue      # the longest array programs start with the `<--`
+                if tier == 'quick' and fam == 'array' and nn == n and k0 != 0: continue      # quick: the longest array programs start with the `<--`
                 if nn == 1: ts.append({'n': nn, 'k0': k0, 'family': fam, 'tgts': tg, 'shapes': sh})
                 else: ts += [{'n': nn, 'k0': k0, 'family': fam, 'tgts': tg, 'shapes': sh, 't0': t0, 's0': s0} for t0 in tg for s0 in sh]
     return ts
@@ -230,8 +230,8 @@ def main(tier, replay=None):
         rep.inconclusive.append('%d solver models did not reproduce natively, e.g. %s' % (len(rep.nonrepro), json.dumps(rep.nonrepro[0], default=str)[:400]))
     if NAT: NAT.close()
     pr = prog()
-    rep.bounds = {'statements': '1..%d per template, kinds {<--, <==, ===, local =} symbolic; scalar family: 2 signals, 5 expression shapes; array family: s0 and the elements a[0], a[1] as targets, 4 shapes reading them; rhs degree knowledge unknown or any range, all definition types' % (2 if tier == 'quick' else 3)}
+    rep.bounds = {'statements': '1..%d per template, kinds {<--, <==, ===, local =} symbolic; scalar family: 2 signals, 5 expression shapes; array family: s0 and the elements a[0], a[1] as targets, 4 shapes reading them; rhs degree knowledge unknown or any range, all definition types' % 2}
     rep.stubs = ['SignalAssignmentWarning::into_report / UnecessarySignalAssignmentWarning::into_report (argument captured)']
     rep.assumptions = ['HashSet<Assignment>/HashSet<Constraint> modelled as association lists (insertion order)', 'source hash ' + pr.hashes['analysis']]
-    rep.outside = ['desugaring of tuple / anonymous-component forms and IR lifting (the statements are built in IR form)', 'component-port targets, array elements with non-constant indices', 'more than %d statements' % (2 if tier == 'quick' else 3)]
+    rep.outside = ['desugaring of tuple / anonymous-component forms and IR lifting (the statements are built in IR form)', 'component-port targets, array elements with non-constant indices', 'more than %d statements' % 2]
     return rep.finish()
